@@ -111,7 +111,9 @@ namespace ST
         {
             m_chars = is_reffed() ? move.m_chars : m_data;
             traits_t::copy(m_data, move.m_data, local_length);
+            move.m_chars = move.m_data;
             move.m_size = 0;
+            move.m_data[0] = 0;
         }
 
         buffer(const char_T *data, size_t size)
@@ -188,11 +190,19 @@ namespace ST
 
         buffer<char_T> &operator=(buffer<char_T> &&move) noexcept
         {
+            if (this == &move)
+                return *this;
+
             std::swap(m_chars, move.m_chars);
             std::swap(m_size, move.m_size);
+            char_T temp[local_length];
+            traits_t::copy(temp, m_data, local_length);
             traits_t::copy(m_data, move.m_data, local_length);
+            traits_t::copy(move.m_data, temp, local_length);
             if (!is_reffed())
                 m_chars = m_data;
+            if (!move.is_reffed())
+                move.m_chars = move.m_data;
             return *this;
         }
 
